@@ -105,7 +105,9 @@ CLAIMS = {
             'Stage 1 of 5 only: for every reading frame and every compatible subset of <=2 supplied variants (3 for SNVs) '
             'of every kind/position/length within the bound, the real variant graph (init_three_frames + '
             'create_variant_graph) contains a path spelling exactly that haplotype. A stage-1 witness is lifted to a '
-            'real callVariant run against a definitional digest before it is reported.',
+            'real callVariant run against a definitional digest before it is reported. CircRNA clause: on ONE concrete '
+            'two-exon circRNA the real call_peptide_circ_rna traversal reports exactly the non-canonical digestion products '
+            'of the circular reading for miscleavage 0 (thorough 1-2) and ALL integer min/max lengths.',
             'NARROW CLAIM: codon alignment, translation, cleavage graph and traversal are outside reach (content-hashed '
             'graph nodes); a defect confined to them is not detected. Known finding: adjacent variants of different '
             'merge classes (known_findings.txt).'),
@@ -140,9 +142,12 @@ CLAIMS = {
     'C15': (True, CH,
             'STAR-Fusion, FusionCatcher and Arriba: convert -> shift to closest exon -> transcript mapping executed for '
             'real; the donor and acceptor parts denoted by the record equal the breakpoint-defined parts (incl. retained '
-            'intronic bases) for every exon placement, strand and breakpoint (provenance of an arbitrary position).',
-            'GVF half only: that callVariant fusion peptides are digestion products of that sequence is outside the '
-            'claim; REF base content is stubbed.'),
+            'intronic bases) for every exon placement, strand and breakpoint (provenance of an arbitrary position). '
+            'callVariant half: on TWO concrete fusions (acceptor entered in frame / out of frame) the real '
+            'call_peptide_fusion traversal reports exactly the non-canonical digestion products of donor-up-to-breakpoint + '
+            'acceptor-from-breakpoint for miscleavage 0..1 (thorough 2) and ALL integer min/max lengths.',
+            'The callVariant half is decided on two fixed fusions with exonic breakpoints only; REF base content is '
+            'stubbed in the parser conditions.'),
     'C18': (True, CH,
             'Source-set order equals "fewer sources first, then lexicographic by priority" for unbounded symbolic '
             'priorities; split decision for one peptide over every source assignment / priority order / max_groups / '
